@@ -11,6 +11,7 @@ geometries and inputs, in release and debug profiles, each call under catch_unwi
 import MinizProof.Gen.All
 import MinizProof.Lemmas.GenArith
 import MinizProof.Lemmas.CoreCall
+import MinizProof.Lemmas.CoreTotal
 namespace C05
 open Gen.InflCore
 
@@ -149,6 +150,47 @@ theorem failed_is_sticky (r : Regs) (inp out : Array UInt8) (outPos budget flags
   · rw [epilogue_status_neg _ _ _ _ _ _ (by rw [hx]; decide), hx]
   · simp [exitState, stFailed, stBlockBoundary]
   · simp
+
+/-- TOTALITY of the model: for EVERY register state (reachable or not), every input, every output
+    buffer, position, budget and flags word, a call terminates with one of the eight real status
+    codes — it never exhausts its fuel (`stModelError`). The proof is a termination measure
+    (`Lemmas/CoreTotal`: unread bits, room in the window, a per-state rank below 8) that every
+    non-final transition of the 24 working states strictly lowers. -/
+theorem call_always_terminates (r : Regs) (inp out : Array UInt8) (outPos budget flags : Nat) :
+    let st := (decompress r inp out outPos budget flags).status
+    st = stBadParam ∨ st = stAdler32Mismatch ∨ st = stFailed ∨ st = stDone ∨ st = stNeedsMoreInput ∨
+    st = stHasMoreOutput ∨ st = stFailedCannotMakeProgress ∨ st = stBlockBoundary := by
+  intro st
+  by_cases hg : badGeometry flags out.size outPos = true
+  · left; show (decompress r inp out outPos budget flags).status = _
+    rw [bad_geometry_is_param_error r inp out outPos budget flags hg]
+  · simp only [Bool.not_eq_true] at hg
+    have hfin := decompress_run_total r inp out outPos budget flags hg
+    have hst : st = (decompress r inp out outPos budget flags).status := rfl
+    unfold decompress at hst
+    rw [hg] at hst
+    simp only [Bool.false_eq_true, ↓reduceIte] at hst hfin
+    generalize run _ _ _ _ = R at hst hfin
+    obtain ⟨s0, c, out'⟩ := R
+    simp only at hst hfin
+    rcases epilogue_status flags outPos (min (outPos + budget) out.size) s0 c out' with h | h
+    · rw [h] at hst
+      have hx : st = stHasMoreOutput ∨ st = s0 := by
+        rw [hst]; unfold exitStatus; split
+        · exact Or.inl rfl
+        · exact Or.inr rfl
+      rcases hx with hx | hx
+      · right; right; right; right; right; left; exact hx
+      · rw [hx]
+        rcases hfin with h1 | h1 | h1 | h1 | h1
+        · right; right; right; right; right; left; exact h1.1
+        · rcases eoi_cases { inp := inp, flags := flags, outLen := out.size, outEnd := min (outPos + budget) out.size } with h2 | h2
+          · right; right; right; right; left; rw [h1.1, h2]
+          · right; right; right; right; right; right; left; rw [h1.1, h2]
+        · right; right; right; left; exact h1.1
+        · right; right; left; exact h1.1
+        · right; right; right; right; right; right; right; exact h1
+    · right; left; rw [hst]; exact h.1
 
 example : badGeometry 0 3 0 = true := by decide
 example : badGeometry 4 3 4 = true := by decide
